@@ -1706,7 +1706,7 @@ def run(ctx: Ctx, prove: bool = True):
     try:
         r = Run(ctx, tmp)
         r.last_path = None
-        n = ctx.budget(640, 8000)
+        n = ctx.budget(640, 6800)
         dft = info["data_field_types"]
         for i in range(n):
             k = i % 6
